@@ -296,6 +296,7 @@ mod verif_proofs {
     sender_instance!(c16_sender_len_56, 56, 66);
     sender_instance!(c16_sender_len_57, 57, 66);
     sender_instance!(c16_sender_len_58, 58, 66);
+    sender_instance!(c16_sender_len_114, 114, 116);
     sender_instance!(c16_sender_len_115, 115, 117);
     sender_instance!(c16_sender_len_116, 116, 118);
     sender_instance!(c16_sender_len_117, 117, 119);
